@@ -258,7 +258,18 @@ class ConcreteDict(Type):
 
 
 TAGMOD = "liquid2.builtin.tags.translate_tag"
-BLOCKNODE = lambda nodes: Rec("BlockNode", _module="liquid2.ast", nodes=nodes)   # noqa: E731
+BLOCKNODE = lambda nodes: Rec("BlockNode", _module="liquid2.ast", nodes=nodes, token=Any_)   # noqa: E731
+
+LineOf = z3.Function("line_number_of", ObjSort, z3.IntSort())     # messages.line_number(token): the line the token starts on
+
+
+def _line_number_hook(ex, selfv, name, args, **kw):
+    return SInt(LineOf(ex.box(args[0])))
+
+
+@spec("line_of", None)
+def _line_of(ex, tok):
+    return SInt(LineOf(ex.box(tok)))
 MSGBLOCK = lambda nodes=ListOf("any"): Rec("MessageBlock", _module=TAGMOD, block=BLOCKNODE(nodes), text=Str)   # noqa: E731
 KWA = lambda v: Rec("KeywordArgument", _module=EXPR, value=v)   # noqa: E731
 
@@ -302,8 +313,10 @@ contract(
     params={"self": Rec("TranslateNode", _module=TAGMOD, args=_CTX_ARGS, singular_block=MSGBLOCK(Union(ConcreteList(), ConcreteList(Any_))),
                         plural_block=Opt(MSGBLOCK()), message_context_var=Const("context"),
                         token=Rec("TagToken", _module="liquid2.token", start=Int, source=Str))},
-    opaque_methods={"line_number": Int},
+    opaque_methods={"line_number": _line_number_hook},
     post=[
+        # the message is reported on the line the translate tag itself starts on
+        "implies(len(result) == 1, result[0].lineno == line_of(self.token))",
         "implies(len(self.singular_block.block.nodes) == 0, len(result) == 0)",          # an empty message is not a message
         "implies(len(self.singular_block.block.nodes) > 0, len(result) == 1)",
         f"implies(len(result) == 1, result[0].funcname == static_family_name(self.plural_block is not None, {LIT_CTX}))",
